@@ -363,6 +363,37 @@ def r02_10(run, model):
            witness="a program that never prints keeps `import \"fmt\"`: its only users were runtime helpers removed by prune_dead_functions")
 
 
+def r02_11(run, model):
+    run.rule("R02.11", "the collector of helper type declarations starts from everything that is emitted: gen_type_definition writes the field "
+                       "types of every struct and enum definition (tast_ty_to_go_type), so collect_runtime_types visits the fields of the "
+                       "same tables, not only the function bodies")
+    GO = "crates/compiler/src/go/compile.rs"
+    em = model.fn("gen_type_definition", GO)
+    co = model.fn("collect_runtime_types", GO)
+
+    def tables(f, leaf):
+        out = {}
+        for loop in S.walk(f.node):
+            if loop["k"] != "For":
+                continue
+            tabs = [c["method"] for c in S.walk(loop["iter"]) if c["k"] == "MethodCall" and c["method"] in ("structs", "enums", "extern_types")]
+            if tabs and any(True for _ in S.calls(loop["body"], leaf)):
+                for t in tabs:
+                    out.setdefault(t, loop)
+        return out
+    E = tables(em, "tast_ty_to_go_type")
+    if not E:
+        raise AnalysisIncomplete("gen_type_definition: no definition table with emitted field types found")
+    C = tables(co, "collect_type")
+    for t, loop in sorted(E.items()):
+        ok = t in C
+        run.ob("R02.11", f"collect_runtime_types|fields of {t}() are collected", ok, site(GO, (C.get(t) or loop)["sp"]),
+               f"gen_type_definition emits field types of {t}(); collector visits them: {ok}",
+               witness="enum Shape { Dot, Segment((int32,int32),(int32,int32)) } with only Shape::Dot constructed: the output declares "
+                       "`type Segment struct { _0 Tuple2_int32_int32 … }` and never declares Tuple2_int32_int32")
+    run.floor("definition tables whose field types are emitted", len(E), 2)
+
+
 def run(run, model):
     run.try_rule(r02_1, model)
     run.try_rule(r02_2, model)
@@ -372,6 +403,7 @@ def run(run, model):
     run.try_rule(r02_8, model)
     run.try_rule(r02_9, model)
     run.try_rule(r02_10, model)
+    run.try_rule(r02_11, model)
     from rules import c08
     run.try_rule(c08.r08_1, model)
     from rules import c07
